@@ -6,25 +6,25 @@ HOOK_COMMITS = ["915111c"]
 
 CHECKS = {
  "C01": dict(engine="E1 simnet + E2 loopback", level="model_checking", technique="stateless deviation-bounded exploration of the real Worker under a controlled environment (all answer sequences with <= D deviations; all placements of <= F network faults), plus exhaustive grid over real sockets",
-   text="Every emitted DATA of the real sending Worker is checked against its file slice on all executions with at most D (1..3) adversarial answers and on all placements of up to F (1..3) network faults with a reference client; exhaustive within the stated grids and bounds. Socket::send failures are an environment answer too (the n-th datagram refused, every n); duplicate mode explored as well.",
+   text="Every emitted DATA of the real sending Worker is checked against its file slice on all executions with at most D (1..3; thorough 4 on the lock-step and 2-block-window grids) adversarial answers and on all placements of up to F (1..3) network faults with a reference client; exhaustive within the stated grids and bounds. Socket::send failures are an environment answer too (the n-th datagram refused, every n); duplicate mode explored as well.",
    note="Trusted: SimSocket/virtual clock seam (one cfg hook), the slice monitor, the reference client; bounds D,F <= 3; small-scope grids plus boundary values rather than all 2^16 x 2^16 parameter pairs.", design="§3, §6 C01"),
  "C02": dict(engine="E1 simnet + E2 loopback", level="model_checking", technique="stateless deviation-bounded exploration of the real receiving Worker (all arrival sequences with <= D deviations, all placements of <= F faults) with the file read back at every ACK emission",
-   text="All arrival histories with at most D deviations (duplicates, gaps, old blocks, premature short blocks, strays, undecodable datagrams, timeouts) at every position, and all placements of up to F faults with a reference sender; the file on disk is observed inside Socket::send at the instant of each ACK. Write errors (RLIMIT_FSIZE) at every block: no block that could not be stored is acknowledged.",
+   text="All arrival histories with at most D (1..2, thorough 3..4) deviations (duplicates, gaps, old blocks, premature short blocks, strays, undecodable datagrams, timeouts) at every position, and all placements of up to F faults with a reference sender; the file on disk is observed inside Socket::send at the instant of each ACK. Write errors (RLIMIT_FSIZE) at every block: no block that could not be stored is acknowledged.",
    note="Trusted: SimSocket seam, RFC 1350 reference receiver used as oracle, file snapshots (len+hash).", design="§3, §6 C02"),
  "C03": dict(engine="E2 loopback", level="model_checking", technique="exhaustive enumeration of filenames over a path-token alphabet up to a length bound against the real Server, with tree snapshots and a lexical reference resolver",
    text="All names of <=3 (thorough 4; 6 on the separator/dot sub-alphabet) tokens over an 18-token path alphabet, as RRQ and WRQ, in 4-5 configurations; each accepted request is carried to its end; served bytes identify their origin; the sandbox tree is snapshotted before and after.",
    note="Trusted: reference resolver; Linux path semantics; no symlinks in the served tree.", design="§4, §6 C03"),
  "C04": dict(engine="E1 simnet + E2 loopback", level="fault_enumeration", technique="exhaustive enumeration of fault placements (drop/duplicate/delay/swap, both directions, both timer orders) over the closed system real Worker + reference peer",
-   text="Every placement of up to F (2, thorough 3) faults over all datagrams of a transfer, both roles, windowsize 1..4, four conformant peer variants, plus k<=5 consecutive losses at every position and all timeout/deliver words up to 12 answers; completion and byte identity are asserted whenever fewer than 6 faults occurred. Through the real Server (timeout=1 acknowledged): the same datagram lost 1, 2, 4 times in a row, both directions; the bundled tftpc behind a UDP relay that loses exactly one data-phase datagram, every early position.",
+   text="Every placement of up to F (2; thorough 3, and 4 on the shortest transfers) faults over all datagrams of a transfer, both roles, windowsize 1..4, four conformant peer variants, plus k<=5 consecutive losses at every position and all timeout/deliver words up to 12 answers; completion and byte identity are asserted whenever fewer than 6 faults occurred. Through the real Server (timeout=1 acknowledged): the same datagram lost 1, 2, 4 times in a row, both directions; the bundled tftpc behind a UDP relay that loses exactly one data-phase datagram, every early position.",
    note="Trusted: reference peers (RFC 1350/1123/7440), timer model (timers fire when the network is quiet; fair alternation).", design="§3.3, §6 C04"),
  "C05": dict(engine="E2 loopback (subprocess)", level="model_checking", technique="exhaustive enumeration of hostile datagram sequences up to length 2 over a structured alphabet, each against a fresh tftpd process, followed by a liveness probe",
    text="All sequences of 1 (thorough 2, same/different source) datagrams over a ~190-datagram hostile alphabet (every option boundary value up to and beyond 2^64) x 4 configurations, each against a fresh process of the real binary; exit status and a canonical RRQ decide; after a completed transfer the canonical request is also issued from the endpoint that owned it.",
    note="Trusted: the alphabet covers the structurally relevant datagrams; arbitrary byte strings are C10's domain.", design="§6 C05"),
  "C06": dict(engine="E2 loopback", level="model_checking", technique="explicit-state breadth-first search over file-tree states with the real Server executing every transition, reference policy oracle, hidden-state differential guard",
-   text="BFS to depth 2 (thorough 3) over 24 request actions from an initial tree in all 32 configurations; every transition is judged by a reference policy function written from the statement.",
+   text="BFS to depth 2 (thorough 4) over 36 request actions from an initial tree in all 32 configurations; every transition is judged by a reference policy function written from the statement.",
    note="Trusted: reference policy; state = file tree (server-internal state is guarded differentially by probing revisited states).", design="§4, §6 C06"),
  "C07": dict(engine="E1 simnet + E2 loopback", level="model_checking", technique="stateless deviation-bounded exploration of the real Worker (both roles) with termination monitors; silence, ERROR and k non-progress answers injected at every point; plus ERROR/silence histories against the real Server",
-   text="All answer sequences with <= D deviations (2, thorough 3) over the G1 grid, plus all-timeout from every point, ERROR at every point (handshake included) and k = 0..9 non-progress answers of one kind followed by silence, both roles; monitors T1-T5. Through the real Server (both port modes): peer ERROR after k steps ends the transfer at once; silence is answered by a retransmission after the default 5 s and by giving up after six 1-second timeouts (wall clock).",
+   text="All answer sequences with <= D deviations (2; thorough 3, 4 for windowsize <= 2) over the G1 grid, plus all-timeout from every point, ERROR at every point (handshake included) and k = 0..9 non-progress answers of one kind followed by silence, both roles; monitors T1-T5. Through the real Server (both port modes): peer ERROR after k steps ends the transfer at once; silence is answered by a retransmission after the default 5 s and by giving up after six 1-second timeouts (wall clock).",
    note="Trusted: SimSocket seam; bounded retry accepted up to 16 consecutive timeouts.", design="§6 C07"),
  "C08": dict(engine="E1 simnet + E2 loopback", level="model_checking", technique="stateless deviation-bounded exploration with a virtual clock: ACK alphabet x delays {0,T/2,T-1ns}, windowsize incl. 65534/65535, overflow-checked build in the thorough tier",
    text="All answer sequences with <= D deviations where every ACK kind (full, partial, duplicate, stale, future) arrives with delay 0, T/2 or T-1ns; monitors W1-W4 on bursts and virtual time; windowsize 1,2,3,4,8,65534,65535 (incl. a completely filled 65535-block window). Through the real Server: a duplicate ACK 0.7 s before a negotiated 6 s interval elapses triggers nothing (wall clock).",
@@ -48,16 +48,16 @@ CHECKS = {
    text="N in {0,1,2,3,254} x roles x windowsize x lengths with D <= 1 deviations, peers answering once or every copy; copies counted on the wire for N in 0..3 in both port modes; a peer that leaves after the first copy of the final ACK; a window of copies that outlasts the timeout (1 ms of virtual time per copy); N = 0..=300 through Config::new and 254/255/256 through the binary; tftpc against a duplicating tftpd.",
    note="Wire-level surplus-copy detection uses a short wait; exact counting is done in E1.", design="§6 C16"),
  "C10": dict(engine="E3 seq", level="model_checking", technique="exhaustive bounded enumeration of datagrams through the real decoder (explicit enumeration, no sampling)",
-   text="Every byte string of <=5 (thorough <=7 after a valid opcode) tokens over a 19-token structural alphabet, all 65536 opcode prefixes x tails, and all single-site mutations of valid encodings are pushed through the real Packet::deserialize; mandatory rejections are judged by an independent RFC decoder, stability by re-encoding with the real encoder. Exhaustive within the alphabet/length bound.",
+   text="Every byte string of <=5 (thorough <=6, <=8 after a valid opcode) tokens over a 19-token structural alphabet, all 65536 opcode prefixes x tails, and all single-site mutations of valid encodings are pushed through the real Packet::deserialize; mandatory rejections are judged by an independent RFC decoder, stability by re-encoding with the real encoder. Exhaustive within the alphabet/length bound.",
    note="Trusted: the independent decoder in harness/src/refcodec.rs and the choice of token alphabet; bytes outside the alphabet are represented by one letter/digit each.", design="§6 C10"),
  "C11": dict(engine="E3 seq", level="model_checking", technique="exhaustive enumeration of grammar-generated packet values incl. all 65536 block numbers / opcodes / error codes, against an independent RFC codec",
    text="All packets generated by a small grammar (all u16 numbers exhaustively) are encoded by the real encoder and compared byte for byte with an independent RFC encoder, decoded back by the real decoder and by the independent one.",
    note="Trusted: harness/src/refcodec.rs; string and option-value sets are representative, not all strings.", design="§6 C11"),
  "C17": dict(engine="E3 seq", level="model_checking", technique="exhaustive enumeration of argument vectors up to a length bound through the real parsers, against a reference parser plus model-free permutation comparison",
-   text="Every argument vector of <=3 (thorough <=4, 5 on a sub-alphabet) flag units over ~35 units goes through the real Config::new / ClientConfig::new and is compared with a reference parser written from the statement; permutations of non-repeating vectors are compared with each other.",
+   text="Every argument vector of <=3 (thorough <=5, 6 on a sub-alphabet) flag units over ~35 units goes through the real Config::new / ClientConfig::new and is compared with a reference parser written from the statement; permutations of non-repeating vectors are compared with each other.",
    note="Trusted: the reference parser; -h/--help excluded (process::exit).", design="§6 C17"),
  "C18": dict(engine="E3 seq", level="model_checking", technique="exhaustive enumeration of operation sequences up to a depth on the real Window, against a VecDeque reference model",
-   text="All operation sequences of length 5 (thorough 6) over (size, chunk, file length) in {0..3}x{1..3}x{0..7} in source, sink and mixed regimes, plus window sizes 65534/65535, are applied to the real Window and every observer is compared with a reference queue after each operation; whole files of 8191..70000 bytes streamed through fill/remove and 1023..65535 pieces buffered before one empty().",
+   text="All operation sequences of length 5 (thorough 7) over (size, chunk, file length) in {0..3}x{1..3}x{0..7} in source, sink and mixed regimes, plus window sizes 65534/65535, are applied to the real Window and every observer is compared with a reference queue after each operation; whole files of 8191..70000 bytes streamed through fill/remove and 1023..65535 pieces buffered before one empty().",
    note="Trusted: the reference queue; regular files only.", design="§6 C18"),
 }
 
